@@ -87,3 +87,72 @@ async def _wait_snapshot_resume(seed):
     obs = await E.drive(wf2, rec2, drv, ctx=ctx2, externals=ext[before:], policy="random")
     return dict(snapshot=True, spec=spec, obs=obs, rec=rec2, store=await _store_of(obs, spec["count_n"]),
                 delivered_before=before, remaining=[f.label for f in ext[before:]], waiting=waiting, round_trips=trips)
+
+
+
+async def _idle_snapshot_resume(seed):
+    """snapshot while the run is alive but IDLE - it has returned an InputRequiredEvent and nothing is queued, running,
+    buffered or waiting; only an external HumanResponseEvent can make it go on - then resume on a fresh workflow object
+    and send the response.  Returns the result and the state-store counters (each step counts its executions)."""
+    from suites.wfevents import HR, IR
+    from workflows.events import StartEvent, StopEvent
+    rng = random.Random(seed)
+    asks = rng.choice([1, 1, 2])
+    spec = dict(steps={
+        "a_start": dict(accepts=[StartEvent], returns=[IR], num_workers=1, script=[("incr", "asked"), ("return", IR)]),
+        "c_answer": dict(accepts=[HR], returns=[StopEvent, IR], num_workers=1,
+                         script=[("incr", "answered"), ("return_const", "done")]),
+    })
+    trips = rng.choice([0, 0, 1])
+
+    async def store_of(h):
+        out = {}
+        for k in ("asked", "answered"):
+            out[k] = await h.ctx.store.get(k, default=0)
+        return out
+
+    async def finish(wf, rec, ctx=None):
+        h = wf.run(ctx=ctx) if ctx is not None else wf.run()
+        cons = asyncio.ensure_future(_drain(h))
+        await vloop.settle()
+        return h, cons
+
+    # uninterrupted
+    rec0 = E.Recorder()
+    wf0 = E.build_workflow(spec, rec0)
+    h0, c0 = await finish(wf0, rec0)
+    h0.ctx.send_event(HR(k=1))
+    await vloop.settle()
+    ref = (await asyncio.wait_for(h0, 5), await store_of(h0))
+    await asyncio.gather(c0, return_exceptions=True)
+    # snapshot at the idle point
+    rec = E.Recorder()
+    wf = E.build_workflow(spec, rec)
+    h, c = await finish(wf, rec)
+    d = json.loads(json.dumps(h.ctx.to_dict()))
+    await h.cancel_run()
+    await vloop.settle()
+    try:
+        await h
+    except BaseException:  # noqa: BLE001
+        pass
+    await asyncio.gather(c, return_exceptions=True)
+    rec2 = E.Recorder()
+    rec2.eid = rec.eid
+    wf2 = E.build_workflow(spec, rec2)
+    h2, c2 = await finish(wf2, rec2, ctx=Context.from_dict(wf2, d))
+    h2.ctx.send_event(HR(k=1))
+    await vloop.settle()
+    done = h2._result_task.done()
+    res, exc = None, None
+    if done:
+        try:
+            res = h2._result_task.result()
+        except BaseException as ex:  # noqa: BLE001
+            exc = ex
+    else:
+        await h2.cancel_run()
+        await vloop.settle()
+    await asyncio.gather(c2, return_exceptions=True)
+    return dict(ref=ref, done=done, result=res, exc=exc, store=await store_of(h2),
+                start_executions_after_resume=sum(1 for r in rec2.log if r["kind"] == "enter" and r["step"] == "a_start"))
